@@ -108,6 +108,9 @@ class World:
         self.deadline = 600.0
         self.trio_shuffle = True
         self.open_fds: list = []
+        self.use_threads = False  # baton-passing worker threads (WSGI), see hcsim.threads
+        self.thread_jobs: Dict[int, Any] = {}
+        self.thread_delays: Callable[[], float] = lambda: 0.0
 
     # -- scenario helpers ----------------------------------------------------------
     def connect(self) -> Conn:
@@ -284,12 +287,21 @@ class World:
         self.sim.at(end_at, self.trigger_shutdown)
         if self.app_wrapper is None:
             self.app_wrapper = ASGIWrapper(self.app)
-        if self.worker == "asyncio":
-            self._run_asyncio()
-        else:
-            from .trio_backend import run_trio_world
+        undo = None
+        try:
+            if self.worker == "asyncio":
+                self._run_asyncio()
+            else:
+                from .trio_backend import run_trio_world
 
-            run_trio_world(self)
+                if self.use_threads:
+                    from .threads import install_trio
+
+                    undo = install_trio(self)
+                run_trio_world(self)
+        finally:
+            if undo is not None:
+                undo()
         self._settle()
 
     def _settle(self, horizon: float = 1.0) -> None:
@@ -323,6 +335,10 @@ class World:
             self.listener.listen()
 
         async def main(loop: aio.SimLoop) -> None:
+            if self.use_threads:
+                from .threads import install_asyncio
+
+                self._undo_threads = install_asyncio(self, loop)
             event = asyncio.Event()
             self._trigger = event.set
             if self.trigger_at is not None:
@@ -333,10 +349,12 @@ class World:
             )
 
         self._main_task = None
+        self._undo_threads = None
         try:
             aio.run_asyncio_world(self, main)
         finally:
-            pass
+            if self._undo_threads is not None:
+                self._undo_threads()
 
     def _hit_deadline(self, loop: Any) -> None:
         self.sim.rec("deadline")
